@@ -17,7 +17,8 @@ CONSTANTS
   Weak_NoWitnessNeeded = FALSE
   Weak_BackwardsUnbound = FALSE
   Weak_ReplacementHashUnchecked = FALSE
+  Weak_PromotedWitnessStays = FALSE
 INIT Init
 NEXT Next
-INVARIANTS TrustRootOnly StoreSound WitnessConfirmed NoConfirmationFromSilence AttackReported AttackStoresNothing StoreMonotone
+INVARIANTS TrustRootOnly StoreSound WitnessConfirmed IndependentWitness NoConfirmationFromSilence AttackReported AttackStoresNothing StoreMonotone
 CHECK_DEADLOCK FALSE
